@@ -1,7 +1,7 @@
 """C09 — timers never fire early, fire as often as specified, and bound the idle sleep (virtual clock).
 
 Spec: {"timers": [{"at": t, "interval": g, "persist": bool, "dt": bool, "resets": [[t, g|null], ...], "unreg": t|null}, ...],
-       "events": [t, ...], "task": null | {"at": t, "steps": k}, "horizon": h}
+       "events": [[t, busy], ...]   (an ordinary event fired at t whose handler takes `busy` virtual seconds), "task": null | {"at": t, "steps": k}, "horizon": h}
 All times are virtual seconds relative to the start. The real run() executes with the real FallBackGenerator; the
 clock (`time` in circuits.core.timers / circuits.core.manager) and the idle wait (`Event` in circuits.core.helpers) are doubles:
 a wait of t seconds returns at once and advances the clock by t.
@@ -102,7 +102,7 @@ class C09(Prop):
         })
         return st.fixed_dictionaries({
             'timers': st.lists(timer, min_size=1, max_size=5),
-            'events': st.lists(st.sampled_from(TIMES), max_size=4),
+            'events': st.lists(st.tuples(st.sampled_from(TIMES), st.sampled_from([0, 0, 0, 0.3, 0.7, 2.5])).map(list), max_size=4),
             'task': st.one_of(st.none(), st.fixed_dictionaries({'at': st.sampled_from(TIMES), 'steps': st.integers(1, 30)})),
             'horizon': st.sampled_from([2.0, 4.0, 6.0]),
         })
@@ -121,8 +121,8 @@ class C09(Prop):
                 plan.append((rt, 1, ('reset', i, g)))
             if t['unreg'] is not None:
                 plan.append((t['unreg'], 2, ('unreg', i)))
-        for t in spec['events']:
-            plan.append((t, 3, ('event',)))
+        for t, busy in spec['events']:
+            plan.append((t, 3, ('event', busy)))
         if spec['task']:
             plan.append((spec['task']['at'], 4, ('task', spec['task']['steps'])))
         plan.sort(key=lambda x: (x[0], x[1]))
@@ -181,7 +181,7 @@ class C09(Prop):
                             d['unreg_at'] = (Clock.now, it)
                             d['changed'] = True
                     elif a[0] == 'event':
-                        self.fire(plain())
+                        self.fire(plain(a[1]))
                     elif a[0] == 'task':
                         self.fire(work(a[1]))
                 if acted:
@@ -202,14 +202,17 @@ class C09(Prop):
             def _tock(self, i):
                 d = timers[i]
                 it = len(starts) - 1
-                d['fires'].append((Clock.now, it))
-                events.append(('tock', i, Clock.now, it, d['E'], d['state']))
+                # the timer fired in iteration `it`, i.e. at the time that iteration started (busy handlers may have
+                # moved the clock since; the next expiry counts from the firing, not from this dispatch)
+                fired_at = starts[it]
+                d['fires'].append((fired_at, it))
+                events.append(('tock', i, fired_at, it, d['E'], d['state']))
                 if d['state'] != 'armed':
                     prob.append(('fired-after-unregister' if d['state'] == 'unregistered' else 'one-shot-fired-twice',
                                  'timer %d fired at +%.3f in state %s' % (i, Clock.now - T0, d['state'])))
                     return
-                if Clock.now + d['tol'] < d['E']:
-                    prob.append(('fired-early', 'timer %d fired at +%.6f, not due before +%.6f' % (i, Clock.now - T0, d['E'] - T0)))
+                if fired_at + d['tol'] < d['E']:
+                    prob.append(('fired-early', 'timer %d fired at +%.6f, not due before +%.6f' % (i, fired_at - T0, d['E'] - T0)))
                 # was there an earlier iteration at or after the expiry in which it should have fired?
                 for k in range(d['armed_it'] + 1, it):
                     if starts[k] >= d['E'] + 1e-9:
@@ -217,7 +220,7 @@ class C09(Prop):
                             i, d['E'] - T0, it, k, starts[k] - T0)))
                         break
                 if d['persist']:
-                    d['E'] = Clock.now + d['interval']
+                    d['E'] = fired_at + d['interval']
                     d['armed_it'] = it
                 else:
                     d['state'] = 'done'
@@ -228,7 +231,9 @@ class C09(Prop):
                     yield None
 
             @H('plain')
-            def _plain(self):
+            def _plain(self, busy):
+                # a handler that takes `busy` seconds: the clock moves without the loop having slept
+                Clock.now += busy
                 return None
 
         app = Sched()
@@ -300,6 +305,8 @@ class C09(Prop):
             classes.append('datetime-deadline')
         if spec['task']:
             classes.append('generator-task')
+        if any(b > 0 for _, b in spec['events']):
+            classes.append('busy-handler-delays-loop')
         if any(len(d['fires']) >= 2 for d in timers.values()):
             classes.append('persistent-refired')
         return Result(True, nontrivial=multi or changed_between, classes=classes)
